@@ -132,6 +132,9 @@ func (eng *Engine) canInline(fr *Frame, f *ssa.Function, ct *Contract) bool {
 	if !eng.inModule(f) && !eng.inlineExternal[funcPkgPath(f)] {
 		return false
 	}
+	if purePkgs[funcPkgPath(f)] {
+		return false // logging / metrics: effect-free on modelled state, never looked into
+	}
 	if fr.depth >= maxInlineDepth {
 		return false
 	}
